@@ -523,8 +523,9 @@ def judge_step(case, si, st, r, oracle_ans, cls):
                     sig += ':cmd-34h'
                     what += ' (the request\'s command id is 34h, network function %02xh, %s)' % (
                         req['netfn'], 'bridged' if br != '-' else 'not bridged')
-                elif tr == 'rmcp' and any(k in FOREIGN + ['ack'] for k in st.get('kinds', [])) and \
-                        (got.startswith('CompletionCodeError') or br == '-'):
+                elif tr == 'rmcp' and (got.startswith('CompletionCodeError') or br == '-') and any(
+                        e[0] == 'F' and e[1] and bytes.fromhex(e[1])[5:6] == b'\x34' and not cls(cs, rid, br, e[1])[3]
+                        for e in st['events']):
                     sig += ':foreign-send-message-response'
                     what += ' (a Send Message response that does not belong to this transaction is in front of it)'
                 out.append((sig, what, 'ok ' + exp, got))
